@@ -141,8 +141,9 @@ def gen_C03(tier, seed):
             reqs.append(fmt_req("ovliter", {"mk": "std", "pats": hxlist(pats), "hay": hx(hay), "cfgs": cfgs(cf)}))
     reqs += _enum_small(["std"], ["ovl", "ovliter"], ["nc.d.1.0.b", "c.0.0.0.b", "dfa.d.1.0.u"],
                         maxp=2, maxplen=2, maxhay=3 if q else 4)
-    reqs += _find_like(g, 250 if q else 2500, ["std"], ["ovl", "ovliter"], cf)
-    certs = _fixed_certs(["std"], CORPUS_LISTS) + _certs(g, 40 if q else 400, ["std"])
+    reqs += _find_like(g, 250 if q else 2500, ["std"], ["ovl", "ovliter"], cf, fold=0.25)
+    certs = _fixed_certs(["std"], CORPUS_LISTS) + _fixed_certs(["std"], CORPUS_LISTS[:6], fold=True) + \
+        _certs(g, 40 if q else 400, ["std"], fold=0.3)
     return {"reqs": reqs, "certs": certs, "first": False, "gen": g, "modes": "0", "l1c": True}
 
 
@@ -644,14 +645,19 @@ def gen_C06(tier, seed):
                 kv["nolimits"] = 1
             kv["pcfg"] = ";".join(PACKED_VARIANTS)
             reqs.append(fmt_req("packed", kv))
-    # systematic: one match at every offset of haystacks of every length 0..70, all variants
-    for n in (list(range(0, 40)) if q else list(range(0, 71))):
-        for pats in ([b"abcd", b"bc"], [b"a"], [b"ab", b"abc", b"abcde"]):
-            pos = g.rng.randint(0, max(0, n - 2))
-            hay = bytearray(b"x" * n)
-            hay[pos:pos + len(pats[0])] = pats[0][: max(0, n - pos)]
-            reqs.append(fmt_req("packed", {"mk": g.rng.choice(["lf", "ll"]), "pats": hxlist(pats), "hay": hx(bytes(hay)),
-                                           "api": "find", "pcfg": ";".join(PACKED_VARIANTS)}))
+    # systematic: a match at EVERY offset of haystacks of EVERY length (all positions modulo the vector
+    # width, final overlapped window, carry lanes), for 1..4-byte fingerprints, all variants
+    sets = [[b"abc", b"bcd"], [b"abcd", b"bcde"]] + ([] if q else [[b"ab", b"cd"], [b"ab", b"b"], [b"abcde", b"abc"]])
+    for pats in sets:
+        for n in range(0, 72 if q else 104):
+            for pos in range(0, max(1, n - len(pats[0]) + 1)):
+                hay = bytearray(b"x" * n)
+                hay[pos:pos + len(pats[0])] = pats[0][: max(0, n - pos)]
+                kv = {"mk": "lf" if (n + pos) % 2 else "ll", "pats": hxlist(pats), "hay": hx(bytes(hay)),
+                      "api": "find", "pcfg": ";".join(PACKED_VARIANTS)}
+                if not q and pos % 3 == 0 and n > 3:
+                    kv["s"] = min(pos, 1 + (pos * 7) % 3); kv["e"] = n
+                reqs.append(fmt_req("packed", kv))
     reqs.append(fmt_req("packed", {"mk": "lf", "pats": hxlist([b"ab", b""]), "hay": hx(b"xab"), "pcfg": "default;rk"}))
     return {"reqs": reqs, "certs": [], "gen": g, "needs_cpu": True}
 
